@@ -13,7 +13,7 @@ import (
 
 const rule = "case = (JSON-model document, core-fragment expression generated type-directed against that document). " +
 	"oracle: reference interpreter written from the operator documentation (ref.Eval) vs yq in-process (-o=json -I0): both error, or equal ordered result lists. " +
-	"non-trivial = the reference gives a verdict (not Unspecified), the expression has >= 2 operator applications; distinct by (expression text, document text)"
+	"non-trivial = the reference gives a verdict (not Unspecified), the expression has >= 2 operator applications; distinct by (expression text, document text) Sub int_spellings: `A op B` (op in + - * %) with the operands spelled in decimal or hex in the expression, or in any integer spelling YAML reads (hex, octal, binary, sign before the prefix, underscores) in the document; oracle = math/big on the values; the YAML spelling of the result must read back as the same integer; non-trivial = an alternate spelling."
 
 func TestMain(m *testing.M) {
 	hx.Main(m, "C01", rule,
